@@ -38,9 +38,15 @@ func (o Op) String() string {
 // Cap bounds the sequential container (0: unbounded): an add on a container holding Cap items is refused.
 var Cap int
 
+// Poison (0: none) is a value the sequential container rejects: adding it is refused (Full) and stores nothing.
+var Poison int
+
 func step(lifo bool, st []int, o Op) (bool, []int) {
 	switch o.Kind {
 	case "add":
+		if Poison != 0 && o.Arg == Poison {
+			return o.Full, st
+		}
 		if Cap > 0 && len(st) >= Cap {
 			return o.Full, st
 		}
